@@ -408,7 +408,8 @@ def run(R: vlib.Run):
     R.rule = ("histories = (a) every composition of a stream of length 1..Nmax into consecutive chunks pushed onto one accumulator, "
               "with the start index either the sample index or the block number; (b) every split point 0..n of the stream between two "
               "accumulators that are then added, the second one started at index 0 or at its true sample index, each side chunked; "
-              "(c) random longer streams with random compositions and random addition trees; (d) two halves of a 2^21-sample stream added; "
+              "(c) random longer streams with random compositions and random addition trees, and the same streams in one push, two pushes "
+              "and one split fed whole (few float32 roundings of the record: tight bound); (d) two halves of a 2^21-sample stream added; "
               "(e) for streams of length <= 4: every composition with one zero-length push inserted before / between / after its chunks, "
               "and every split with a zero-length push first on the left and last on the right accumulator; "
               "x basic/full x 1..4 channels x data classes " + "/".join(CLASSES) + ".  A case is non-trivial if it pushes >= 2 samples; "
@@ -524,6 +525,13 @@ def run(R: vlib.Run):
         mode = "full" if i % 3 else "basic"
         do_case(chain(0, rand_parts(n), rng.choice(["sample", "block"])), X, mode, cls, "single", want_corr=(n <= 12 and nch == 1))
         do_case(rand_tree(0, n, 4), X, mode, cls, "merge", want_corr=(n <= 12 and nch == 1))
+        # long chunks: the whole stream in one push, in two pushes, and split once between two accumulators fed whole -- few roundings
+        # of the record (K = 1, 2, 3), where `tol_case` is N/K times tighter than the one-rounding-per-sample bound
+        kk = rng.randrange(1, n)
+        do_case(chain(0, [n], "sample"), X, mode, cls, "single", want_corr=False, regime="single-longchunk")
+        do_case(chain(0, [kk, n - kk], "block"), X, mode, cls, "single", want_corr=False, regime="single-longchunk")
+        do_case(("add", chain(0, [kk], "sample"), chain(kk, [n - kk], "sample", first_flag=rng.choice([0, None]))), X, mode, cls, "merge",
+                want_corr=False, regime="merge-longchunk")
         # a push onto a sum
         k = rng.randrange(1, n)
         j = rng.randrange(k, n)
